@@ -358,6 +358,38 @@ func c12(c *Ctx) {
 			}
 		}
 	})
+	// the structural corpus shared with C14/C15/C18 (many headers/types, header counts, shared request
+	// messages, multi-file packages, enum layouts, two API versions in one run) as acceptance probes
+	for _, rc := range l1Corpus(c, "c12l", 1000) {
+		if strings.HasPrefix(rc.ID, "feat") || strings.HasPrefix(rc.ID, "routes/") {
+			continue // covered above / below with their own ids
+		}
+		req, err := spec.Request(rc.Files, rc.Gen, "")
+		if err != nil {
+			c.R.Harness(rc.ID + ": " + err.Error())
+			continue
+		}
+		var protos []string
+		for _, f := range rc.Files {
+			protos = append(protos, f.Proto())
+		}
+		for _, p := range plugin.Sebuf {
+			caseID := fmt.Sprintf("accept/%s/%s", rc.ID, p)
+			if !c.Want(caseID) {
+				continue
+			}
+			res := c.TB.Run(p, req, plugin.RunOpt{})
+			c.R.Eval(1)
+			if res.Crash != "" {
+				c.R.Violate(caseID, "crash", res.Crash, map[string]any{"protos": protos, "stderr": res.Stderr})
+			} else if res.HasError {
+				c.R.Violate(caseID, "refused-valid", res.Error, map[string]any{"protos": protos, "error": res.Error})
+			} else {
+				c.R.Decided(caseID)
+				c.R.Count("acceptances_observed", 1)
+			}
+		}
+	}
 	// routing corpus as acceptance probes
 	lit := 0
 	for bi := range corpus.BaseVariants {
